@@ -1,12 +1,19 @@
 /-
 C06 — cache-aside store.  Executable model (core Lean only) of
   core/stores/cache/cachenode.go   doGetCache / doTake / processCache / setCacheWithNotFound / Set* / DelCtx
+                                   (both branches of DelCtx: one DEL for all keys, and — cluster-type Redis
+                                   with more than one key — one DEL per key, each failure arming its own retry)
+  core/stores/cache/cache.go       cacheCluster: every operation on a key is dispatched to the node the
+                                   consistent hash assigns to the key (`Cfg.place`, an input: the ring is built
+                                   from pointer values); DelCtx groups the keys by node and runs the node's
+                                   DelCtx on every group
   core/stores/cache/cleaner.go     AddCleanTask / clean / nextDelay   (the wheel itself is C12's timer table)
   core/stores/sqlc/cachedsql.go    QueryRowCtx / QueryRowIndexCtx / ExecCtx / DelCacheCtx / SetCache* / GetCacheCtx
   core/mathx/unstable.go           AroundDuration (the draw `j/1000` is an input)
-on top of a private Redis-store model (string keys with a millisecond TTL, GET / SET EX / SET NX EX / DEL)
-and an abstract database (rows by primary key + a unique index), with per-command cache faults and a
-per-operation database fault as inputs.
+on top of a private model of SEVERAL Redis stores (one per cache node; a slot is a pair (node, key); string
+keys with a millisecond TTL, GET / SET EX / SET NX EX / DEL) and an abstract database (rows by primary key +
+a unique index), with per-command cache faults and a per-operation database fault as inputs.  A deployment
+with one node (`cache.New` with a single-entry ClusterConf, `NewNode`) is `place = fun _ => 0`.
 
 Ghost state (not observable, never influences behaviour): every cache entry carries its `Origin`, the
 cleaner counts the tasks it gave up on.
@@ -19,6 +26,9 @@ inductive CKey where
   | p (pk : Nat)
   | x (a : Nat)
   deriving DecidableEq, Repr
+
+/-- a place in the multi-node store: (cache node, key). -/
+abbrev Slot := Nat × CKey
 
 /-- what a Redis value decodes to. -/
 inductive CVal where
@@ -42,26 +52,33 @@ structure Entry where
   origin : Origin     -- ghost
   deriving DecidableEq, Repr
 
-/-- a pending retry of a failed DEL in the cleaner's timer table. -/
+/-- a pending retry of a failed DEL in the cleaner's timer table: one DEL of `keys` on cache node `node`. -/
 structure Task where
+  node  : Nat
   keys  : List CKey
   delay : Nat         -- the delay (seconds = ticks) it was last armed with: 1, 5, 60, 300, 3600
   rem   : Nat         -- ticks until it fires, ≥ 1
   deriving DecidableEq, Repr
 
+def Task.slots (t : Task) : List Slot := t.keys.map fun k => (t.node, k)
+
 structure Cfg where
-  exp : Nat           -- configured expiry, ms (after newOptions' defaulting)
-  nf  : Nat           -- configured not-found expiry, ms
-  deriving DecidableEq, Repr
+  exp : Nat                           -- configured expiry, ms (after newOptions' defaulting)
+  nf  : Nat                           -- configured not-found expiry, ms
+  cluster : Bool := false             -- the nodes' redis.Type is ClusterType
+  place : CKey → Nat := fun _ => 0    -- consistent-hash dispatch: the node a key lives on
 
 structure St where
-  cache  : CKey → Option Entry
+  cache  : Slot → Option Entry
   rows   : Nat → Option (Nat × Nat)      -- pk ↦ (v, a)
   idx    : Nat → Option Nat              -- a ↦ pk
   tasks  : List Task
   gaveUp : Nat                           -- ghost: retries abandoned by the cleaner
 
 def St.init : St := { cache := fun _ => none, rows := fun _ => none, idx := fun _ => none, tasks := [], gaveUp := 0 }
+
+/-- the slot the dispatcher sends operations on `k` to. -/
+def Cfg.slot (c : Cfg) (k : CKey) : Slot := (c.place k, k)
 
 /-! ### constants of the code -/
 
@@ -84,16 +101,16 @@ def ttlSec (eMs j : Nat) : Nat := ((10500 - j) * eMs + 9999999) / 10000000
 /-- `int(math.Ceil(expire.Seconds()))` for an explicit expiry in ms. -/
 def ceilSec (ms : Nat) : Nat := (ms + 999) / 1000
 
-/-! ### Redis store -/
+/-! ### Redis stores -/
 
-def upd (c : CKey → Option Entry) (k : CKey) (e : Option Entry) : CKey → Option Entry :=
+def upd (c : Slot → Option Entry) (k : Slot) (e : Option Entry) : Slot → Option Entry :=
   fun k' => if k' = k then e else c k'
 
-def delKeys (c : CKey → Option Entry) (ks : List CKey) : CKey → Option Entry :=
+def delKeys (c : Slot → Option Entry) (ks : List Slot) : Slot → Option Entry :=
   fun k => if k ∈ ks then none else c k
 
-/-- `FastForward d`. -/
-def expire (c : CKey → Option Entry) (d : Nat) : CKey → Option Entry :=
+/-- `FastForward d` (every node). -/
+def expire (c : Slot → Option Entry) (d : Nat) : Slot → Option Entry :=
   fun k => match c k with
     | some e => if e.ttl ≤ d then none else some { e with ttl := e.ttl - d }
     | none => none
@@ -154,10 +171,18 @@ inductive Cmd where
   | get | set | setnx | del
   deriving DecidableEq, Repr
 
+/-- one cache command as the Redis server of node `node` saw it. -/
+structure CmdRec where
+  cmd  : Cmd
+  node : Nat
+  keys : List CKey
+  fail : Bool
+  deriving DecidableEq, Repr
+
 structure Out where
   res  : Res
   q    : Nat := 0                      -- database calls made
-  cmds : List (Cmd × Bool) := []       -- cache commands issued, `true` = failed
+  cmds : List CmdRec := []             -- cache commands issued
   deriving DecidableEq, Repr
 
 /-- does the cached value unmarshal into the target of a read of this key? -/
@@ -176,33 +201,33 @@ inductive Got where
   | miss
   deriving DecidableEq, Repr
 
-/-- `doGetCache` + `processCache`: returns the state (an unparsable entry is deleted), what was found, and
-the commands issued (1 or 2). -/
-def getCache (s : St) (k : CKey) (m : List Bool) : St × Got × List (Cmd × Bool) :=
-  if failAt m 0 then (s, .err, [(.get, true)])
-  else match s.cache k with
-    | none => (s, .miss, [(.get, false)])
+/-- `doGetCache` + `processCache` on node `n`: returns the state (an unparsable entry is deleted), what was
+found, and the commands issued (1 or 2). -/
+def getCache (s : St) (n : Nat) (k : CKey) (m : List Bool) : St × Got × List CmdRec :=
+  if failAt m 0 then (s, .err, [⟨.get, n, [k], true⟩])
+  else match s.cache (n, k) with
+    | none => (s, .miss, [⟨.get, n, [k], false⟩])
     | some e =>
-      if e.val = .ph then (s, .placeholder, [(.get, false)])
-      else if parses k e.val then (s, .hit e.val, [(.get, false)])
-      else if failAt m 1 then (s, .miss, [(.get, false), (.del, true)])
-      else ({ s with cache := upd s.cache k none }, .miss, [(.get, false), (.del, false)])
+      if e.val = .ph then (s, .placeholder, [⟨.get, n, [k], false⟩])
+      else if parses k e.val then (s, .hit e.val, [⟨.get, n, [k], false⟩])
+      else if failAt m 1 then (s, .miss, [⟨.get, n, [k], false⟩, ⟨.del, n, [k], true⟩])
+      else ({ s with cache := upd s.cache (n, k) none }, .miss, [⟨.get, n, [k], false⟩, ⟨.del, n, [k], false⟩])
 
 /-- `SetWithExpireCtx` after marshalling: SET key val EX ttl. -/
-def setex (s : St) (k : CKey) (v : CVal) (ttlS : Nat) (o : Origin) (fail : Bool) : St :=
+def setex (s : St) (k : Slot) (v : CVal) (ttlS : Nat) (o : Origin) (fail : Bool) : St :=
   if fail then s else { s with cache := upd s.cache k (some ⟨v, ttlS * 1000, o⟩) }
 
 /-- `setCacheWithNotFound`: SET key "*" NX EX ttl. -/
-def setnx (s : St) (k : CKey) (ttlS : Nat) (fail : Bool) : St :=
+def setnx (s : St) (k : Slot) (ttlS : Nat) (fail : Bool) : St :=
   if fail then s
   else match s.cache k with
     | some _ => s
     | none => { s with cache := upd s.cache k (some ⟨.ph, ttlS * 1000, .loaded⟩) }
 
-/-- `cacheNode.TakeCtx` for a primary key (= `CachedConn.QueryRowCtx`): `m` is the fault mask from this
-Take's first command on. -/
+/-- `Cache.TakeCtx` for a primary key (= `CachedConn.QueryRowCtx`), dispatched to the key's node: `m` is the
+fault mask from this Take's first command on. -/
 def takeP (c : Cfg) (s : St) (pk j : Nat) (m : List Bool) (dbf : Bool) : St × Out :=
-  let g := getCache s (.p pk) m
+  let g := getCache s (c.place (.p pk)) (.p pk) m
   match g.2.1 with
   | .err => (g.1, { res := .cacheerr, cmds := g.2.2 })
   | .placeholder => (g.1, { res := .notfound, cmds := g.2.2 })
@@ -211,43 +236,47 @@ def takeP (c : Cfg) (s : St) (pk j : Nat) (m : List Bool) (dbf : Bool) : St × O
     if dbf then (g.1, { res := .dberr, q := 1, cmds := g.2.2 })
     else match dbRow s pk with
       | none =>
-        (setnx g.1 (.p pk) (ttlSec c.nf j) (failAt m g.2.2.length),
-         { res := .notfound, q := 1, cmds := g.2.2 ++ [(.setnx, failAt m g.2.2.length)] })
+        (setnx g.1 (c.slot (.p pk)) (ttlSec c.nf j) (failAt m g.2.2.length),
+         { res := .notfound, q := 1,
+           cmds := g.2.2 ++ [⟨.setnx, c.place (.p pk), [.p pk], failAt m g.2.2.length⟩] })
       | some r =>
-        (setex g.1 (.p pk) r (ttlSec c.exp j) .loaded (failAt m g.2.2.length),
-         { res := .val r, q := 1, cmds := g.2.2 ++ [(.set, failAt m g.2.2.length)] })
+        (setex g.1 (c.slot (.p pk)) r (ttlSec c.exp j) .loaded (failAt m g.2.2.length),
+         { res := .val r, q := 1,
+           cmds := g.2.2 ++ [⟨.set, c.place (.p pk), [.p pk], failAt m g.2.2.length⟩] })
 
-/-- `CachedConn.QueryRowIndexCtx`. -/
+/-- `CachedConn.QueryRowIndexCtx`: the index key and the primary key may live on different nodes. -/
 def qindex (c : Cfg) (s : St) (a j : Nat) (m : List Bool) (dbf : Bool) : St × Out :=
-  let g := getCache s (.x a) m
+  let g := getCache s (c.place (.x a)) (.x a) m
   match g.2.1 with
   | .err => (g.1, { res := .cacheerr, cmds := g.2.2 })
   | .placeholder => (g.1, { res := .notfound, cmds := g.2.2 })
-  | .hit (.pk n) =>
+  | .hit (.pk pk) =>
     -- index entry cached: the row is read with a second Take on the primary key
-    let t := takeP c g.1 n j (m.drop g.2.2.length) dbf
+    let t := takeP c g.1 pk j (m.drop g.2.2.length) dbf
     (t.1, { t.2 with cmds := g.2.2 ++ t.2.cmds })
   | .hit _ => (g.1, { res := .cacheerr, cmds := g.2.2 })   -- unreachable: `parses (.x a)` admits `.pk` only
   | .miss =>
     if dbf then (g.1, { res := .dberr, q := 1, cmds := g.2.2 })
     else match dbIndex s a with
       | none =>
-        (setnx g.1 (.x a) (ttlSec c.nf j) (failAt m g.2.2.length),
-         { res := .notfound, q := 1, cmds := g.2.2 ++ [(.setnx, failAt m g.2.2.length)] })
+        (setnx g.1 (c.slot (.x a)) (ttlSec c.nf j) (failAt m g.2.2.length),
+         { res := .notfound, q := 1,
+           cmds := g.2.2 ++ [⟨.setnx, c.place (.x a), [.x a], failAt m g.2.2.length⟩] })
       | some r =>
-        -- the primary entry is written first, with expire + 5 s; if that fails the error is returned
-        -- through the query path and nothing is cached under the index key
+        -- the primary entry is written first (on ITS node), with expire + 5 s; if that fails the error is
+        -- returned through the query path and nothing is cached under the index key
         if failAt m g.2.2.length then
-          (g.1, { res := .cacheerr, q := 1, cmds := g.2.2 ++ [(.set, true)] })
+          (g.1, { res := .cacheerr, q := 1, cmds := g.2.2 ++ [⟨.set, c.place (.p r.1), [.p r.1], true⟩] })
         else
-          (setex (setex g.1 (.p r.1) r.2 (ttlSec c.exp j + safeGapSec) .loaded false)
-              (.x a) (.pk r.1) (ttlSec c.exp j) .loaded (failAt m (g.2.2.length + 1)),
+          (setex (setex g.1 (c.slot (.p r.1)) r.2 (ttlSec c.exp j + safeGapSec) .loaded false)
+              (c.slot (.x a)) (.pk r.1) (ttlSec c.exp j) .loaded (failAt m (g.2.2.length + 1)),
            { res := .val r.2, q := 1,
-             cmds := g.2.2 ++ [(.set, false), (.set, failAt m (g.2.2.length + 1))] })
+             cmds := g.2.2 ++ [⟨.set, c.place (.p r.1), [.p r.1], false⟩,
+                               ⟨.set, c.place (.x a), [.x a], failAt m (g.2.2.length + 1)⟩] })
 
 /-- `GetCacheCtx`. -/
-def getOp (s : St) (k : CKey) (m : List Bool) : St × Out :=
-  let g := getCache s k m
+def getOp (c : Cfg) (s : St) (k : CKey) (m : List Bool) : St × Out :=
+  let g := getCache s (c.place k) k m
   match g.2.1 with
   | .err => (g.1, { res := .cacheerr, cmds := g.2.2 })
   | .placeholder => (g.1, { res := .notfound, cmds := g.2.2 })
@@ -259,51 +288,95 @@ def setOp (c : Cfg) (s : St) (k : CKey) (v : CVal) (expMs : Option Int) (j : Nat
   let ttl := match expMs with
     | some e => if e ≤ 0 then ttlSec c.exp j else ceilSec e.toNat
     | none => ttlSec c.exp j
-  (setex s k v ttl .explicit (failAt m 0),
-   { res := if failAt m 0 then .cacheerr else .ok, cmds := [(.set, failAt m 0)] })
+  (setex s (c.slot k) v ttl .explicit (failAt m 0),
+   { res := if failAt m 0 then .cacheerr else .ok, cmds := [⟨.set, c.place k, [k], failAt m 0⟩] })
 
-/-- `DelCtx` (node): one DEL for all keys; on failure a clean task is armed (1 s). -/
-def delOp (s : St) (ks : List CKey) (m : List Bool) : St × Out :=
-  if ks = [] then (s, { res := .ok })
-  else if failAt m 0 then
-    ({ s with tasks := s.tasks ++ [⟨ks, 1, 1⟩] }, { res := .ok, cmds := [(.del, true)] })
-  else ({ s with cache := delKeys s.cache ks }, { res := .ok, cmds := [(.del, false)] })
+/-! ### DelCtx -/
 
-/-- ghost bookkeeping of a database write: entries whose key's database view changed are no longer `loaded`. -/
-def markChanged (old new : St) (ks : List CKey) : CKey → Option Entry :=
-  fun k => match old.cache k with
+/-- one DEL of `ks` on node `n`: on failure `asyncRetryDelCache(ks...)` arms a clean task (1 s) for exactly
+these keys. -/
+def delOne (s : St) (n : Nat) (ks : List CKey) (fail : Bool) : St :=
+  if fail then { s with tasks := s.tasks ++ [⟨n, ks, 1, 1⟩] }
+  else { s with cache := delKeys s.cache (ks.map fun k => (n, k)) }
+
+/-- the per-key loop of `cacheNode.DelCtx` (cluster-type Redis, more than one key): every key gets its own
+DEL, whatever happened to the keys before it; `m` = outcomes of the node's DELs of this operation, in order. -/
+def delLoop (s : St) (n : Nat) : List CKey → List Bool → St × List CmdRec
+  | [], _ => (s, [])
+  | k :: ks, m =>
+    let r := delLoop (delOne s n [k] (m.headD false)) n ks m.tail
+    (r.1, ⟨.del, n, [k], m.headD false⟩ :: r.2)
+
+/-- `cacheNode.DelCtx` on node `n`. -/
+def nodeDel (cluster : Bool) (s : St) (n : Nat) (ks : List CKey) (m : List Bool) : St × List CmdRec :=
+  if ks = [] then (s, [])
+  else if ks.length > 1 ∧ cluster = true then delLoop s n ks m
+  else (delOne s n ks (failAt m 0), [⟨.del, n, ks, failAt m 0⟩])
+
+/-- the nodes the keys are dispatched to (the key set of `cacheCluster.DelCtx`'s `nodes` map). -/
+def nodesOf (c : Cfg) : List CKey → List Nat
+  | [] => []
+  | k :: ks => if c.place k ∈ nodesOf c ks then nodesOf c ks else c.place k :: nodesOf c ks
+
+/-- `cacheCluster.DelCtx`, the loop over the `nodes` map (Go iterates it in random order; the groups touch
+different stores and arm independent tasks, the driver compares the commands sorted by node): node `n`
+gets the keys dispatched to it, in the order of the call; `masks.getD n []` = outcomes of its DELs. -/
+def clusterDel (c : Cfg) (ks : List CKey) (masks : List (List Bool)) : List Nat → St → St × List CmdRec
+  | [], s => (s, [])
+  | n :: ns, s =>
+    let a := nodeDel c.cluster s n (ks.filter fun k => c.place k = n) (masks.getD n [])
+    let b := clusterDel c ks masks ns a.1
+    (b.1, a.2 ++ b.2)
+
+/-- `Cache.DelCtx` (`cacheCluster.DelCtx`; with a single node — `place` constant — this is
+`cacheNode.DelCtx` on all keys, and for a single key it is the `case 1` shortcut: `delOp_single`). -/
+def delOp (c : Cfg) (s : St) (ks : List CKey) (masks : List (List Bool)) : St × Out :=
+  let r := clusterDel c ks masks (nodesOf c ks) s
+  (r.1, { res := .ok, cmds := r.2 })
+
+/-- ghost bookkeeping of a database write: entries whose key's database view changed are no longer `loaded`;
+`stale` = the Exec names the key and the entry sits on the node the Exec's DEL for that key goes to. -/
+def markChanged (c : Cfg) (old new : St) (ks : List CKey) : Slot → Option Entry :=
+  fun sl => match old.cache sl with
     | some e =>
-      if dbView new k = dbView old k then some e
-      else if e.origin = .loaded then some { e with origin := if k ∈ ks then .stale else .unkeyed }
+      if dbView new sl.2 = dbView old sl.2 then some e
+      else if e.origin = .loaded then
+        some { e with origin := if sl.2 ∈ ks ∧ c.place sl.2 = sl.1 then .stale else .unkeyed }
       else some e
     | none => none
 
 /-- `ExecCtx`: database write, then DelCacheCtx of the keys. -/
-def execOp (s : St) (ks : List CKey) (w : Write) (m : List Bool) (dbf : Bool) : St × Out :=
+def execOp (c : Cfg) (s : St) (ks : List CKey) (w : Write) (masks : List (List Bool)) (dbf : Bool) : St × Out :=
   if dbf then (s, { res := .dberr, q := 1 })
   else
     let s1 := applyWrite s w
-    let d := delOp { s1 with cache := markChanged s s1 ks } ks m
+    let d := delOp c { s1 with cache := markChanged c s s1 ks } ks masks
     (d.1, { d.2 with q := 1 })
 
-/-- one tick of the cleaner: due tasks run their DEL (all fail iff `cf`); a failed one is re-armed with
-`nextDelay` or given up. -/
-def tickTask (cf : Bool) (t : Task) : Option Task :=
+/-! ### cleaner -/
+
+/-- one tick of the cleaner: a due task runs its DEL on its node (it fails iff the node is down); a failed
+one is re-armed with `nextDelay` or given up. -/
+def tickTask (down : Nat → Bool) (t : Task) : Option Task :=
   if t.rem > 1 then some { t with rem := t.rem - 1 }
-  else if cf then
+  else if down t.node then
     match nextDelay t.delay with
     | some d => some { t with delay := d, rem := d }
     | none => none
   else none
 
-def dueKeys (ts : List Task) : List CKey := (ts.filter (·.rem ≤ 1)).flatMap (·.keys)
+/-- the slots whose DEL runs successfully at this tick. -/
+def dueSlots (down : Nat → Bool) (ts : List Task) : List Slot :=
+  (ts.filter fun t => t.rem ≤ 1 ∧ down t.node = false).flatMap Task.slots
 
-def tick (s : St) (cf : Bool) : St × Out :=
+def downOf (down : List Bool) : Nat → Bool := fun n => down.getD n false
+
+def tick (s : St) (down : List Bool) : St × Out :=
   let due := s.tasks.filter (·.rem ≤ 1)
-  ({ s with cache := if cf then s.cache else delKeys s.cache (dueKeys s.tasks),
-            tasks := s.tasks.filterMap (tickTask cf),
-            gaveUp := s.gaveUp + (if cf then (due.filter (fun t => (nextDelay t.delay).isNone)).length else 0) },
-   { res := .ok, cmds := due.map fun _ => (.del, cf) })
+  ({ s with cache := delKeys s.cache (dueSlots (downOf down) s.tasks),
+            tasks := s.tasks.filterMap (tickTask (downOf down)),
+            gaveUp := s.gaveUp + (due.filter fun t => downOf down t.node && (nextDelay t.delay).isNone).length },
+   { res := .ok, cmds := due.map fun t => ⟨.del, t.node, t.keys, downOf down t.node⟩ })
 
 /-! ### operations -/
 
@@ -311,24 +384,24 @@ inductive Op where
   | take (pk j : Nat) (m : List Bool) (dbf : Bool)
   | qindex (a j : Nat) (m : List Bool) (dbf : Bool)
   | get (k : CKey) (m : List Bool)
-  | exec (ks : List CKey) (w : Write) (m : List Bool) (dbf : Bool)
-  | del (ks : List CKey) (m : List Bool)
+  | exec (ks : List CKey) (w : Write) (masks : List (List Bool)) (dbf : Bool)
+  | del (ks : List CKey) (masks : List (List Bool))
   | set (k : CKey) (v : CVal) (expMs : Option Int) (j : Nat) (m : List Bool)
-  | raw (k : CKey) (v : CVal) (ttlMs : Nat)          -- written into Redis directly
+  | raw (k : CKey) (v : CVal) (ttlMs : Nat)          -- written into the key's Redis directly
   | ft (ms : Nat)
-  | tick (cf : Bool)
+  | tick (down : List Bool)
   deriving Repr
 
 def step (c : Cfg) (s : St) : Op → St × Out
   | .take pk j m dbf => takeP c s pk j m dbf
   | .qindex a j m dbf => qindex c s a j m dbf
-  | .get k m => getOp s k m
-  | .exec ks w m dbf => execOp s ks w m dbf
-  | .del ks m => delOp s ks m
+  | .get k m => getOp c s k m
+  | .exec ks w m dbf => execOp c s ks w m dbf
+  | .del ks m => delOp c s ks m
   | .set k v e j m => setOp c s k v e j m
-  | .raw k v t => ({ s with cache := upd s.cache k (if t = 0 then none else some ⟨v, t, .explicit⟩) }, { res := .ok })
+  | .raw k v t => ({ s with cache := upd s.cache (c.slot k) (if t = 0 then none else some ⟨v, t, .explicit⟩) }, { res := .ok })
   | .ft ms => ({ s with cache := expire s.cache ms }, { res := .ok })
-  | .tick cf => tick s cf
+  | .tick down => tick s down
 
 def run (c : Cfg) (s : St) : List Op → St
   | [] => s
